@@ -32,9 +32,10 @@ Perms(n) == {p \in [1..n -> 1..n] : \A i, j \in 1..n : p[i] = p[j] => i = j}
 Allowed(t) ==
   LET n == Fld(t, "anyorder", 0)
       ok(r) == r.status = "unspec" \/ (r.status = "ok" /\ t.outcome = "ok" /\ t.out = r.out) \/ (r.status = "error" /\ t.outcome = "error")
-  IN  IF n = 0 THEN ok(Render(Cx0, t.prog, EnvOf(t.env)))
-      ELSE \E p \in Perms(n) : ok(Render([Cx0 EXCEPT !.perm = p], t.prog, EnvOf(t.env)))
-Decided(t) == Render([Cx0 EXCEPT !.perm = <<1, 2, 3>>], t.prog, EnvOf(t.env)).status # "unspec"
+      cx == [Cx0 EXCEPT !.cache = Fld(t, "cache", <<>>)]
+  IN  IF n = 0 THEN ok(Render(cx, t.prog, EnvOf(t.env)))
+      ELSE \E p \in Perms(n) : ok(Render([cx EXCEPT !.perm = p], t.prog, EnvOf(t.env)))
+Decided(t) == Render([Cx0 EXCEPT !.perm = <<1, 2, 3>>, !.cache = Fld(t, "cache", <<>>)], t.prog, EnvOf(t.env)).status # "unspec"
 
 Why(t) ==
   IF t.outcome \in {"panic", "fatal", "timeout"} THEN "the render did not return"
